@@ -316,9 +316,13 @@ func execNames(in Ev) Ev {
 		return out
 	}
 	keys := varKeysOf(a)
-	calc.DefaultVariables().Add(variables.NewVariable("Unrelated", variants.VariantFromInteger(5)))
+	// every third case starts from a collection with nothing in it (the state a new calculator is in)
+	startEmpty := seed%3 == 0
+	if !startEmpty {
+		calc.DefaultVariables().Add(variables.NewVariable("Unrelated", variants.VariantFromInteger(5)))
+	}
 	for i, k := range keys {
-		if r.Intn(3) == 0 {
+		if !startEmpty && r.Intn(3) == 0 {
 			nm := k
 			if i%2 == 0 {
 				nm = strings.ToUpper(k)
